@@ -363,3 +363,27 @@ PROPS["C05"] = dict(
         dict(name="random", pkg="c05", run="TestRandom", checks=dict(quick=480, thorough=8000), shards=16, timeout=dict(quick=400, thorough=2400), shrinktime="90s"),
     ],
 )
+
+PROPS["C03"] = dict(
+    level="exploration",
+    manifest=dict(
+        text=("One in-process node; 1-3 subscriber sessions (QoS 1 or 2) whose acknowledgements are scripted; the in-flight table sits behind a "
+              "harness wrapper, so the case decides when a sweep happens: before every pending deadline (nothing may be re-sent) or after every "
+              "pending deadline (every open exchange must be re-sent exactly once: the same PUBLISH - type, identifier, topic, payload, QoS - or "
+              "the PUBREL). Generated scripts: send, acknowledge the k-th open exchange or an unknown identifier with PUBACK/PUBREC/PUBREL/PUBCOMP "
+              "(right and wrong types), sweeps, session end. Oracle: model of every open exchange (identifier, phase); identifiers on the wire are "
+              "non-zero and distinct among open exchanges; at the end all sessions are ended, everything expires and the writer's allocator is read "
+              "out: every identifier 1..65535 must be free again. One real-time case lets the broker's own 1 s ticker drive the sweep."),
+        note=_L3_NOTE + " The allocator is read through the verif hook wasp.VerifWriterMIDPool.",
+        technique="stateful property-based testing with harness-owned expiry sweeps against a per-exchange model",
+    ),
+    rule=("a case = subscriber QoS list + step list (send / ack / early sweep / late sweep / end). Non-trivial = at least one retransmission was "
+          "observed and (a QoS 2 exchange reached PUBREL or an acknowledgement of the wrong type / unknown identifier was injected). Distinct = distinct case."),
+    assumptions=["sweeps are either before all pending deadlines or after all of them (deadlines of one case differ by milliseconds only; per-entry timing is C04's subject)",
+                 "ticker wiring: a retransmission must appear within 30 s of real time (nominal 3-4 s)"],
+    runs=[
+        dict(name="regress", pkg="c03", run="TestRegress", timeout=300),
+        dict(name="ticker", pkg="c03", run="TestTickerWiring", timeout=300),
+        dict(name="random", pkg="c03", run="TestRandom", checks=dict(quick=320, thorough=6000), shards=16, timeout=dict(quick=400, thorough=2400), shrinktime="90s"),
+    ],
+)
